@@ -306,6 +306,18 @@ def table():
         ("optsproduct", [], no_args(lambda m: [[0], [1], [2]]), always),
         ("optsmany", [], no_args(lambda m: [[k] for k in range(m + 2)]), always),
         ("optssum", [], no_args(lambda m: [[0], [1]]), always),
+        # extension round 4: the same object twice, other container kinds, swap, record::set
+        ("treeswap", ["i", "i", "i", "i"], sized(4, {0: [2], 3: [0]}, cap=3), always),
+        ("treesortpred", ["i"], lambda maxn: [((n,), []) for n in range(1, maxn + 2)], always),
+        ("joinself", ["lc"], sized(1), never),
+        ("arrjoinself", ["lc"], sized(1, cap=2), never),
+        ("tupconcatself", ["lc"], sized(1, cap=2), never),
+        ("optcombineself", ["lc"], opt_sized(1), never),
+        ("algmaplist", [ANY], sized(1), always),
+        ("algmaparr", [ANY], sized(1, cap=3), always),
+        ("algmaptup", [ANY], sized(1, cap=3), always),
+        ("algloopbrktup", [ANY], sized(1, par=lambda s: [[k] for k in range(s[0] + 1)], cap=3), always),
+        ("recset", ["i", ANY], sized(2, {0: [1, 2, 3], 1: [1]}, lambda s: [[k] for k in range(s[0])]), lambda cats: cats[1] == "r"),
         ("eithfirst", [], lambda maxn: [((), list(m)) for ln in range(maxn + 1) for m in itertools.product([0, 1], repeat=ln)], always),
     ]
 
